@@ -142,6 +142,31 @@ def main():
                     curated.append(ir.DeclarationAssignment(ir.Declaration(V("z"), T.boolean), e))
                     curated.append(ir.Branch(e, ir.Assignment(V("xi"), ir.IntegerLiteral(5)), ir.Assignment(V("yi"), ir.IntegerLiteral(6))))
                     curated.append(ir.Loop(e, ir.Block([])))
+    # linear forms with negative / non-unit coefficients on either side (negation rules)
+    coefs = [ir.IntegerLiteral(-1), ir.FloatLiteral(-1.0), ir.IntegerLiteral(2), ir.FloatLiteral(2.5), ir.IntegerLiteral(1)]
+    for ca in coefs:
+        for xa in (V("xf"), V("xi"), ir.ArrayIndex(V("q"), ir.IntegerLiteral(2))):
+            for yb in (V("yf"), V("yi")):
+                for op in (ir.Add, ir.Subtract):
+                    for m in (ir.Multiply(ca, xa), ir.Multiply(xa, ca)):
+                        curated.append(ir.Assignment(ir.ArrayIndex(V("q"), ir.IntegerLiteral(0)), op(m, yb)))
+                        curated.append(ir.Assignment(ir.ArrayIndex(V("q"), ir.IntegerLiteral(0)), op(yb, m)))
+    # branch chains with empty arms (a dropped guard changes which arm runs)
+    conds = [ir.LessThan(V("xi"), V("yi")), ir.Equal(V("xi"), ir.IntegerLiteral(1)), V("b"), ir.GreaterThan(V("yi"), ir.IntegerLiteral(0))]
+    acts = [ir.Assignment(V("xi"), ir.IntegerLiteral(7)), ir.Assignment(ir.ArrayIndex(V("p"), ir.IntegerLiteral(0)), ir.IntegerLiteral(9)),
+            ir.Return(ir.IntegerLiteral(3))]
+    empties = [ir.Block([]), ir.Block([ir.Block([])], "c"), ir.Assignment(V("yi"), V("yi")),
+               ir.Assignment(ir.ArrayIndex(V("q"), ir.IntegerLiteral(1)), ir.Add(ir.ArrayIndex(V("q"), ir.IntegerLiteral(1)), ir.IntegerLiteral(0)))]
+    for c1 in conds:
+        for c2 in conds:
+            if c1 is c2:
+                continue
+            for em in empties:
+                for a1 in acts[:2]:
+                    curated.append(ir.Branch(c1, em, ir.Branch(c2, a1, acts[2])))
+                    curated.append(ir.Branch(c1, em, ir.Branch(c2, em, a1)))
+                    curated.append(ir.Branch(c1, a1, ir.Branch(c2, em, acts[0])))
+                curated.append(ir.Block([ir.Branch(c1, em, ir.Branch(c2, acts[1], ir.Block([]))), ir.Assignment(V("yi"), ir.Add(V("yi"), V("xi")))]))
     # constant comparisons (any folding rule must agree with the arithmetic)
     for op in (ir.Equal, ir.NotEqual, ir.LessThan, ir.GreaterThan, ir.LessThanOrEqual, ir.GreaterThanOrEqual):
         for (l, r) in ((0, 1), (1, 0), (1, 1), (2, 1), (-1, 0), (0, 0)):
